@@ -36,6 +36,7 @@ type c10Spec struct {
 	Nodes      []c10Node `json:"nodes"`
 	FailEvery  int       `json:"fail_every_nth_mutating_statement"`
 	StartFails bool      `json:"first_start_replica_on_a_stale_master_fails"` // the turn of a stale master fails at its last statement, once
+	SSOffFails bool      `json:"first_semi_sync_disable_on_a_stale_master_fails"` // one step of taking it out of service fails, once
 }
 
 var (
@@ -65,6 +66,9 @@ func c10Gen(seed int64, idx int) c10Spec {
 	}
 	if sp.Nodes[0].Source == "none" && g%2 == 0 {
 		sp.StartFails, sp.FailEvery = true, 0
+	}
+	if sp.Nodes[0].Source == "none" && g%2 == 1 && (g/2)%2 == 0 {
+		sp.SSOffFails, sp.FailEvery = true, 0
 	}
 	return sp
 }
@@ -151,11 +155,15 @@ func c10Run(u *Unit) {
 				}
 			}
 		}
-		var startFailed atomic.Bool
+		var startFailed, ssOffFailed atomic.Bool
 		w.Fault = func(c *world.StmtCtx) world.FaultAction {
 			if sp.StartFails && c.Class == "start_replica" && stale[c.Host] && startFailed.CompareAndSwap(false, true) {
 				sc.Cover("turn-of-a-stale-master-failed-at-start")
 				return world.FaultAction{Kind: "fail", Errno: 1872}
+			}
+			if sp.SSOffFails && c.Class == "ss_disable" && stale[c.Host] && ssOffFailed.CompareAndSwap(false, true) {
+				sc.Cover("semi-sync-disable-on-a-stale-master-failed")
+				return world.FaultAction{Kind: "fail", Errno: 1205}
 			}
 			if sp.FailEvery > 0 && c.Mut {
 				mu.Lock()
